@@ -8,7 +8,7 @@ import os
 
 _IXCOUNT = 0
 
-FIELDS = {"f": 0, "g": 1, "k": 2, "n": 3}
+FIELDS = {"f": 0, "g": 1, "k": 2, "n": 3, "kind": 4, "t": 5, "u": 6}   # 4..6: nested stream only (never sent to the model)
 FNAMES = {v: k for k, v in FIELDS.items()}
 ALPHA = ["a", "ab", "abc", "b", "ba", "c", "ca", "d"]
 BOOSTS = [1.0, 1.0, 1.0, 1.0, 2.0, 0.5, 4.0]
@@ -75,7 +75,7 @@ def _nr_unkey(key):
 
 def q2s(q):
     from whoosh import query as Q
-    from whoosh.query import qcore
+    from whoosh.query import qcore, spans as S, nested as NS
     t = type(q)
     if isinstance(q, qcore._NullQuery):
         return "null"
@@ -118,7 +118,101 @@ def q2s(q):
         return "(%s %s %s)" % (tag, q2s(q.a), q2s(q.b))
     if t is Q.ConstantScoreQuery:
         return "(const %s %s)" % (q2s(q.child), r2s(q.score))
+    sp = span2text(q)
+    if sp is not None:
+        # a span query is an opaque leaf of the model: its canonical text travels as code points
+        fld = "none"
+        if t is S.SpanFirst:
+            f = sx_field(parse1(q2s(q.q)))
+            fld = "none" if f is None else str(f)
+        return "(opq %s %s)" % (fld, t2s(sp))
+    if t is NS.NestedParent:
+        return "(nestedparent %s %s %s %s)" % (q2s(q.parents), q2s(q.child),
+                                               "none" if q.per_parent_limit is None else q.per_parent_limit,
+                                               getattr(q.score_fn, "__name__", "fn"))
+    if t is NS.NestedChildren:
+        return "(nestedchildren %s %s %s)" % (q2s(q.parents), q2s(q.child), r2s(q.boost))
     raise Unserializable(t.__name__)
+
+
+def span2text(q):
+    """canonical text (class, every constructor argument, subqueries) of a span query, else None"""
+    from whoosh.query import spans as S
+    t = type(q)
+    if t is S.SpanFirst:
+        return "(spanfirst %d %s)" % (q.limit, q2s(q.q))
+    if t is S.SpanNear:
+        return "(spannear %d %s %d %s %s)" % (q.slop, b2s(q.ordered), q.mindist, q2s(q.a), q2s(q.b))
+    if t is S.SpanNear2:
+        return "(spannear2 %d %s %d (%s))" % (q.slop, b2s(q.ordered), q.mindist, " ".join(q2s(x) for x in q.qs))
+    if t is S.SpanOr:
+        return "(spanor (%s))" % " ".join(q2s(x) for x in q.subqs)
+    for cls, tag in ((S.SpanNot, "spannot"), (S.SpanContains, "spancontains"), (S.SpanBefore, "spanbefore"),
+                     (S.SpanCondition, "spancond")):
+        if t is cls:
+            return "(%s %s %s)" % (tag, q2s(q.a), q2s(q.b))
+    return None
+
+
+def text2span(x):
+    """parsed canonical text -> span query"""
+    from whoosh.query import spans as S
+    tag = x[0]
+    if tag == "spanfirst":
+        return S.SpanFirst(s2q(x[2]), limit=int(x[1]))
+    if tag == "spannear":
+        return S.SpanNear(s2q(x[4]), s2q(x[5]), slop=int(x[1]), ordered=x[2] == "1", mindist=int(x[3]))
+    if tag == "spannear2":
+        return S.SpanNear2([s2q(y) for y in x[4]], slop=int(x[1]), ordered=x[2] == "1", mindist=int(x[3]))
+    if tag == "spanor":
+        return S.SpanOr([s2q(y) for y in x[1]])
+    cls = {"spannot": S.SpanNot, "spancontains": S.SpanContains, "spanbefore": S.SpanBefore,
+           "spancond": S.SpanCondition}[tag]
+    return cls(s2q(x[1]), s2q(x[2]))
+
+
+def pretty(text):
+    """query text with the code points of span leaves decoded: (opq F <canonical text of the span query>)"""
+    try:
+        def go(x):
+            if isinstance(x, str):
+                return x
+            if x and x[0] == "opq":
+                return "(opq %s %s)" % (x[1], pretty(s2t(x[2])))
+            return "(" + " ".join(go(y) for y in x) + ")"
+        return go(parse1(text))
+    except Exception:  # noqa
+        return text
+
+
+def opq_inner(x):
+    """the parsed canonical text inside an (opq F (codes)) node"""
+    return parse1(s2t(x[2]))
+
+
+def sx_field(x):
+    """mirror of WM.Normalize.Q.field on parsed trees (field ids)"""
+    if x == "null":
+        return None
+    tag = x[0]
+    if tag == "every" or tag == "opq":
+        return None if x[1] == "none" else int(x[1])
+    if tag in ("term", "pre", "wild", "range", "phrase"):
+        return int(x[1])
+    if tag == "multi":
+        return int(x[2])
+    if tag in ("and", "or", "dismax", "seq"):
+        cs = children(x)
+        if not cs:
+            return None
+        f = sx_field(cs[0])
+        return f if all(sx_field(c) == f for c in cs[1:]) else None
+    if tag in ("andnot", "andmaybe", "require", "otherwise"):
+        f = sx_field(x[1])
+        return f if sx_field(x[2]) == f else None
+    if tag == "const":
+        return sx_field(x[1])
+    return None
 
 
 def s2q(x):
@@ -166,6 +260,15 @@ def s2q(x):
         return cls(s2q(x[1]), s2q(x[2]))
     if tag == "const":
         return Q.ConstantScoreQuery(s2q(x[1]), score=s2r(x[2]))
+    if tag == "opq":
+        return text2span(opq_inner(x))
+    if tag == "nestedparent":
+        from whoosh.query import nested as NS
+        return NS.NestedParent(s2q(x[1]), s2q(x[2]), per_parent_limit=None if x[3] == "none" else int(x[3]),
+                               score_fn={"sum": sum, "max": max, "min": min}[x[4]])
+    if tag == "nestedchildren":
+        from whoosh.query import nested as NS
+        return NS.NestedChildren(s2q(x[1]), s2q(x[2]), boost=s2r(x[3]))
     raise ValueError(tag)
 
 
@@ -187,7 +290,7 @@ def children(x):
         return list(x[2])
     if tag in ("not", "const"):
         return [x[1]]
-    if tag in ("andnot", "andmaybe", "require", "otherwise"):
+    if tag in ("andnot", "andmaybe", "require", "otherwise", "nestedparent", "nestedchildren"):
         return [x[1], x[2]]
     return []
 
@@ -220,6 +323,8 @@ def with_children(x, cs):
         return [tag, cs[0], x[2]]
     if tag in ("andnot", "andmaybe", "require", "otherwise"):
         return [tag, cs[0], cs[1]]
+    if tag in ("nestedparent", "nestedchildren"):
+        return [tag, cs[0], cs[1]] + list(x[3:])
     return x
 
 
@@ -236,8 +341,22 @@ def shrink_candidates(x):
     for c in cs:
         yield c
     # a term that matches nothing, in place of the whole subtree
-    if x != NOMATCH and (cs or x[0] in ("and", "or", "dismax", "phrase", "range")):
+    if x != NOMATCH:
         yield NOMATCH
+    if x[0] in ("pre", "wild", "range", "phrase") or (x[0] == "term" and x[2] != NOMATCH[2]):
+        # ... and one in the same field (keeps field()-dependent rewrites alive)
+        yield ["term", x[1], NOMATCH[2], "1"]
+    if x[0] in ("pre", "wild") and x[2]:
+        yield ["term", x[1], x[2], "1"]
+    if x[0] == "opq":
+        # a span query: try its subqueries, and smaller versions of itself
+        inner = opq_inner(x)
+        kids = [y for y in inner[1:] if isinstance(y, list) and y and isinstance(y[0], str)
+                and not y[0].isdigit()]
+        if inner[0] in ("spannear2", "spanor"):
+            kids = list(inner[-1])
+        for k in kids:
+            yield k
     tag = x[0]
     if tag in ("and", "or", "dismax", "seq"):
         for i in range(len(cs)):
@@ -281,7 +400,10 @@ def gen_leaf(rng, prof):
         return Q.TermRange(fld, rng.choice(RANGE_LO), rng.choice(RANGE_HI), rng.random() < 0.3,
                            rng.random() < 0.3, boost=b, constantscore=rng.random() < 0.8)
     if k == 13:
-        return Q.NumericRange("n", rng.choice([None, 0, 3, 5]), rng.choice([None, 2, 5, 9]),
+        # (ill-typed mixes -- a NumericRange on a text field next to TermRanges -- must not make
+        # normalize() raise; they cannot be searched, so only the index-free stream generates them)
+        nfld = rng.choice(["n", "n", "f", "k", fld]) if prof.get("illtyped") else "n"
+        return Q.NumericRange(nfld, rng.choice([None, 0, 3, 5]), rng.choice([None, 2, 5, 9]),
                               rng.random() < 0.3, rng.random() < 0.3, boost=b,
                               constantscore=rng.random() < 0.8)
     if k in (14, 15):
@@ -295,7 +417,39 @@ def gen_leaf(rng, prof):
         return Q.Variations(fld, rng.choice(ALPHA), boost=b)
     if k == 18:
         return Q.Regex(fld, rng.choice(["a.*", "ab?", "[ab]+", "c|d", "b.?"]), boost=b)
+    if prof.get("spans", True):
+        return gen_span(rng, rng.choice([0, 0, 1]), prof)
     return Q.Term(fld, rng.choice(ALPHA), boost=b)
+
+
+def gen_span(rng, depth, prof=None):
+    """Random span query (query/spans.py) over the positional fields."""
+    from whoosh import query as Q
+    from whoosh.query import spans as S
+    fld = rng.choice("fg")
+
+    def child(d):
+        r = rng.random()
+        if d > 0 and r < 0.25:
+            return gen_span(rng, d - 1, prof)
+        if r < 0.85:
+            return Q.Term(fld if rng.random() < 0.9 else rng.choice("fg"), rng.choice(ALPHA))
+        if r < 0.93:
+            return Q.Or([Q.Term(fld, rng.choice(ALPHA)), Q.Term(fld, rng.choice(ALPHA))])
+        return Q.Phrase(fld, [rng.choice(ALPHA), rng.choice(ALPHA)], slop=rng.randint(1, 2))
+    k = rng.randrange(10)
+    slop, ordered, mindist = rng.randint(1, 4), rng.random() < 0.5, rng.choice([1, 1, 1, 2])
+    if k <= 2:
+        return S.SpanNear(child(depth), child(depth), slop=slop, ordered=ordered, mindist=mindist)
+    if k <= 4:
+        return S.SpanNear2([child(depth) for _ in range(rng.choice([2, 2, 3]))], slop=slop, ordered=ordered,
+                           mindist=mindist)
+    if k == 5:
+        return S.SpanFirst(child(depth), limit=rng.randint(0, 2))
+    if k == 6:
+        return S.SpanOr([child(depth) for _ in range(rng.choice([1, 2, 2, 3]))])
+    cls = rng.choice([S.SpanNot, S.SpanContains, S.SpanBefore, S.SpanCondition])
+    return cls(child(depth), child(depth))
 
 
 def gen_query(rng, depth, prof):
@@ -365,6 +519,8 @@ def gen_query(rng, depth, prof):
                                     rng.random() < 0.3, boost=rng.choice(BOOSTS)))
         elif r < 0.85:
             kids.append(Q.Term(fld, rng.choice(ALPHA)))
+        elif prof.get("illtyped") and r < 0.92:
+            kids.append(Q.NumericRange(fld, rng.choice([None, 0, 3]), rng.choice([None, 5, 9]), boost=rng.choice(BOOSTS)))
         else:
             kids.append(gen_leaf(rng, prof))
     return cls(kids, boost=b)
@@ -501,6 +657,37 @@ def gen_layout(rng, ndocs, prof):
 
 
 LEAKS = {"deleted": 0}
+SEARCH_TIMEOUT = 5.0
+
+
+class SearchTimeout(Exception):
+    """a search of a handful of documents did not come back (some matcher combinations of the tree
+    loop forever, e.g. IntersectionMatcher over a NestedParentMatcher: a matcher defect)"""
+
+
+class deadline(object):
+    def __init__(self, seconds):
+        self.seconds = seconds
+        self.armed = False
+
+    def _fire(self, signum, frame):
+        raise SearchTimeout()
+
+    def __enter__(self):
+        import signal
+        import threading
+        if threading.current_thread() is threading.main_thread():
+            self.old = signal.signal(signal.SIGALRM, self._fire)
+            signal.setitimer(signal.ITIMER_REAL, self.seconds)
+            self.armed = True
+        return self
+
+    def __exit__(self, *exc):
+        import signal
+        if self.armed:
+            signal.setitimer(signal.ITIMER_REAL, 0)
+            signal.signal(signal.SIGALRM, self.old)
+        return False
 
 
 def docs_of(searcher, q):
@@ -509,15 +696,16 @@ def docs_of(searcher, q):
     property C01/C11, not a rewriting one: deleted documents are dropped here and counted.)"""
     reader = searcher.reader()
     res = []
-    for dn in searcher.docs_for_query(q):
-        if reader.is_deleted(dn):
-            LEAKS["deleted"] += 1
-            continue
-        res.append(searcher.stored_fields(dn)["id"])
+    with deadline(SEARCH_TIMEOUT):
+        for dn in searcher.docs_for_query(q):
+            if reader.is_deleted(dn):
+                LEAKS["deleted"] += 1
+                continue
+            res.append(searcher.stored_fields(dn)["id"])
     return sorted(res)
 
 
-def env_text(docs, live, multirows, seqrows):
+def env_text(docs, live, multirows, seqrows, opqrows=()):
     """(env (docs ..) (multi ..) (seq ..)); only live documents are in the spec's index"""
     dtxt = []
     for i, d in enumerate(docs):
@@ -526,4 +714,5 @@ def env_text(docs, live, multirows, seqrows):
         toks = doc_tokens(d)
         dtxt.append("(%d %s)" % (i, " ".join("(%d %s)" % (f, " ".join(t2s(t) for t in ts))
                                              for f, ts in sorted(toks.items()))))
-    return "(env (docs %s) (multi %s) (seq %s))" % (" ".join(dtxt), " ".join(multirows), " ".join(seqrows))
+    return "(env (docs %s) (multi %s) (seq %s) (opq %s))" % (" ".join(dtxt), " ".join(multirows),
+                                                              " ".join(seqrows), " ".join(opqrows))
